@@ -88,7 +88,12 @@ def build(spec):
         h, _ = GL.hermitian_pauli_operator(rng.choice([1, 2]), rng, rng.choice([0.0, 0.5, 0.9]))
         return G.BlockEncodingGate(h, rng.choice(list(G.BlockEncodingMethod)))
     if k == "ctrl":
-        return G.ControlledGate(build(spec[2]), len(spec[1]), list(spec[1]))
+        # the control pattern as a list, a tuple or an integer array (a deterministic function of the pattern and of the target kind, so a
+        # case replays identically): nested controlled gates concatenate the patterns of both levels, whatever sequence type they were given as
+        pat = list(spec[1])
+        form = (sum(pat) + 2 * len(pat) + len(str(spec[2][0]))) % 3
+        arg = tuple(pat) if form == 1 else np.array(pat, dtype=int) if form == 2 and pat else pat
+        return G.ControlledGate(build(spec[2]), len(pat), arg)
     if k == "ctrlnone":
         return G.ControlledGate(build(spec[2]), spec[1])
     if k == "mplx":
